@@ -25,20 +25,39 @@ Section OneConnection.
 Variable c : cfg.
 (* the default: no whole-request deadline (Proxy.ReadTimeout = 0) *)
 Hypothesis Hread : c_read c = 0.
-(* the PROXY header is awaited before the handshake / request timers are started *)
-Hypothesis Hearly : pp_early = true.
+
+(* what is known about a PROXY header awaited lazily: the timers of the following phase are armed already *)
+Definition lazy_ok (s : st) : Prop :=
+  (nxt s = PLTls \/ nxt s = PIdle) /\
+  ppd s = option_map (Z.add (entered s)) (limit c PPHdr) /\
+  omin (ctxd s) (rd s) = option_map (Z.add (entered s)) (limit c (nxt s)) /\
+  (nxt s = PIdle -> ctxd s = None).
 
 Definition inv (s : st) : Prop :=
   closed s = None ->
   entered s <= now s /\
-  fire_at s = option_map (Z.add (entered s)) (limit c (ph s)) /\
+  fire_at s = option_map (Z.add (entered s)) (eff_limit c s) /\
   (forall f, fire_at s = Some f -> now s < f) /\
-  (ph s = PPHdr -> rd s = None) /\
-  (ph s = PHead -> rd s = arm (rhdr_eff c) (entered s)).
+  (ph s = PPHdr -> pp_early = true -> rd s = None) /\
+  (ph s = PHead -> rd s = arm (rhdr_eff c) (entered s)) /\
+  (ph s = PPHdr -> pp_early = false -> lazy_ok s).
+
+Lemma omin_map t a e : omin (option_map (Z.add t) a) (option_map (Z.add t) e) = option_map (Z.add t) (omin a e).
+Proof. destruct a, e; cbn; try reflexivity. f_equal. lia. Qed.
+
+Lemma omin_some_r a x m : omin a (Some x) = Some m -> m <= x.
+Proof. destruct a; cbn; intros H; inversion H; lia. Qed.
+
+Lemma omin_lt a e t : (forall f, omin a e = Some f -> t < f) -> forall f, e = Some f -> t < f.
+Proof.
+  intros H f ->. destruct (omin a (Some f)) eqn:E.
+  - specialize (H _ eq_refl). apply omin_some_r in E. lia.
+  - destruct a; discriminate.
+Qed.
 
 Lemma inv_read_request s : closed s = None -> inv (start_read_request c s).
 Proof.
-  intros Hc _. unfold start_read_request; cbn [closed entered now fire_at ph rd limit].
+  intros Hc _. unfold start_read_request; cbn [closed entered now fire_at ph rd limit eff_limit].
   repeat split; try lia; try discriminate.
   - apply arm_pos.
   - intros f Hf. eapply arm_some; eauto.
@@ -46,7 +65,7 @@ Qed.
 
 Lemma inv_ltls s : closed s = None -> rd s = None -> inv (start_ltls c s).
 Proof.
-  intros Hc Hrd _. unfold start_ltls; cbn [closed entered now fire_at ph rd ctxd limit].
+  intros Hc Hrd _. unfold start_ltls; cbn [closed entered now fire_at ph rd ctxd limit eff_limit].
   rewrite Hrd, omin_none_r.
   repeat split; try lia; try discriminate.
   - apply arm_pos.
@@ -63,11 +82,23 @@ Qed.
 Lemma inv_start : inv (conn_start c).
 Proof.
   unfold conn_start. destruct (c_has_pp c).
-  - rewrite Hearly. intros _. cbn [closed entered now fire_at ph rd ctxd ppd limit].
-    unfold pp_timer. rewrite omin_none_r.
-    repeat split; try lia; try discriminate.
-    + apply arm_pos.
-    + intros f Hf. eapply arm_some; eauto.
+  - destruct pp_early eqn:Ee.
+    + intros _. cbn [closed entered now fire_at ph rd ctxd ppd limit eff_limit]. rewrite Ee.
+      unfold pp_timer. rewrite omin_none_r.
+      repeat split; try lia; try discriminate; try reflexivity.
+      * apply arm_pos.
+      * intros f Hf. eapply arm_some; eauto.
+    + intros _.
+      assert (Hl : lazy_ok (mkst 0 PPHdr (rd (after_accept c s_init)) (ctxd (after_accept c s_init)) (pp_timer c 0) 0 None
+                                 (ph (after_accept c s_init)))).
+      { unfold lazy_ok, after_accept, start_ltls, start_read_request, pp_timer.
+        destruct (c_has_tls c); cbn [nxt ppd ctxd rd entered limit now s_init ph];
+          (split; [auto|]); (split; [apply arm_pos|]); (split; [|intros; try discriminate; reflexivity]).
+        - rewrite omin_none_r. apply arm_pos.
+        - cbn. apply arm_pos. }
+      destruct Hl as (Hn & Hp & Ho & Hc0).
+      cbn [closed entered now fire_at ph rd ctxd ppd limit eff_limit nxt] in *. rewrite Ee.
+      repeat split; try lia; try discriminate; try assumption.
   - apply inv_after_accept; reflexivity.
 Qed.
 
@@ -79,7 +110,7 @@ Qed.
 
 Lemma inv_head_start s : closed s = None -> inv (head_start c s).
 Proof.
-  intros Hc _. unfold head_start; cbn [closed entered now fire_at ph rd limit].
+  intros Hc _. unfold head_start; cbn [closed entered now fire_at ph rd limit eff_limit].
   repeat split; try lia; try discriminate.
   - apply arm_pos.
   - intros f Hf. eapply arm_some; eauto.
@@ -97,7 +128,7 @@ Qed.
 
 Lemma inv_head_done s : closed s = None -> inv (head_done c s).
 Proof.
-  intros Hc _. unfold head_done; cbn [closed entered now fire_at ph rd limit].
+  intros Hc _. unfold head_done; cbn [closed entered now fire_at ph rd limit eff_limit].
   repeat split; try lia; try discriminate.
 Qed.
 
@@ -105,12 +136,12 @@ Lemma inv_head_done_body s :
   closed s = None -> rd s = arm (rhdr_eff c) (entered s) -> inv (head_done_body c s).
 Proof.
   intros Hc Hrd _. unfold head_done_body. rewrite (rd_after_head_none s Hrd).
-  cbn [closed entered now fire_at ph rd limit]. repeat split; try lia; try discriminate.
+  cbn [closed entered now fire_at ph rd limit eff_limit]. repeat split; try lia; try discriminate.
 Qed.
 
 Lemma inv_body_done s : closed s = None -> inv (body_done s).
 Proof.
-  intros Hc _. unfold body_done; cbn [closed entered now fire_at ph rd limit].
+  intros Hc _. unfold body_done; cbn [closed entered now fire_at ph rd limit eff_limit].
   repeat split; try lia; try discriminate.
 Qed.
 
@@ -118,7 +149,7 @@ Lemma inv_connect_done s :
   closed s = None -> rd s = arm (rhdr_eff c) (entered s) -> inv (connect_done c s).
 Proof.
   intros Hc Hrd _. unfold connect_done. rewrite (rd_after_head_none s Hrd).
-  destruct (c_mitm_on c); cbn [closed entered now fire_at ph rd limit].
+  destruct (c_mitm_on c); cbn [closed entered now fire_at ph rd limit eff_limit].
   - destruct mitm_peek_deadline.
     + repeat split; try lia; try discriminate.
       * apply arm_pos.
@@ -131,8 +162,8 @@ Lemma inv_mtls_start s :
   closed s = None -> ph s = PMPeek -> inv s -> inv (mtls_start c s).
 Proof.
   intros Hc Hp Hi _. destruct (Hi Hc) as (_ & Hf & _).
-  unfold fire_at in Hf. rewrite Hp in Hf. cbn [limit] in Hf.
-  unfold mtls_start; cbn [closed entered now fire_at ph rd ctxd limit].
+  unfold fire_at, eff_limit in Hf. rewrite Hp in Hf. cbn [limit] in Hf.
+  unfold mtls_start; cbn [closed entered now fire_at ph rd ctxd limit eff_limit].
   assert (Hrd : (if mitm_peek_deadline then None else rd s) = None).
   { destruct mitm_peek_deadline; [reflexivity|]. rewrite Hf. reflexivity. }
   rewrite Hrd, omin_none_r.
@@ -149,11 +180,8 @@ Proof. reflexivity. Qed.
 Lemma inv_set_now s t :
   inv s -> closed s = None -> now s <= t -> (forall f, fire_at s = Some f -> t < f) -> inv (set_now t s).
 Proof.
-  intros Hi Hc Ht Hlt _. destruct (Hi Hc) as (He & Hf & _ & Hpp & Hhd).
-  rewrite fire_at_set_now. change (entered (set_now t s)) with (entered s).
-  change (ph (set_now t s)) with (ph s). change (rd (set_now t s)) with (rd s).
-  change (now (set_now t s)) with t.
-  repeat split; try assumption. lia.
+  intros Hi Hc Ht Hlt _. destruct (Hi Hc) as (He & Hf & _ & Hpp & Hhd & Hlz).
+  split; [cbn; lia|]. split; [exact Hf|]. split; [exact Hlt|]. split; [exact Hpp|]. split; [exact Hhd|exact Hlz].
 Qed.
 
 Lemma inv_tick d s : inv s -> inv (tick d s).
@@ -161,7 +189,7 @@ Proof.
   intros Hi. unfold tick. destruct (d <? 0) eqn:Ed; [assumption|]. apply Z.ltb_ge in Ed.
   destruct (closed s) eqn:Hc.
   - intros H. cbn in H. congruence.
-  - destruct (Hi Hc) as (He & Hf & Hlt & Hpp & Hhd).
+  - destruct (Hi Hc) as (He & Hf & Hlt & Hpp & Hhd & Hlz).
     destruct (fire_at s) as [f|] eqn:Ef.
     + destruct (f <=? now s + d) eqn:Efd.
       * intros H. cbn in H. discriminate.
@@ -177,12 +205,22 @@ Lemma inv_step s e : inv s -> inv (step c s e).
 Proof.
   intros Hi. destruct e as [d| | | | |]; cbn [step]; try (apply inv_tick; assumption);
     destruct (closed s) eqn:Hc; try assumption;
-    destruct (Hi Hc) as (He & Hf & Hlt & Hpp & Hhd).
+    destruct (Hi Hc) as (He & Hf & Hlt & Hpp & Hhd & Hlz).
   - (* Bytes *) destruct (ph s) eqn:Hp; try assumption.
     + apply inv_head_start; assumption.
     + apply inv_mtls_start; assumption.
   - (* Done *) destruct (ph s) eqn:Hp; try assumption.
-    + unfold pp_done. rewrite Hearly. apply inv_after_accept; [assumption|]. cbn. apply Hpp; reflexivity.
+    + unfold pp_done. destruct pp_early eqn:Ee.
+      * apply inv_after_accept; [assumption|]. cbn. apply Hpp; reflexivity.
+      * (* the header was awaited lazily: the timers of the next phase have been running since `entered` *)
+        destruct (Hlz eq_refl eq_refl) as (Hn & Hpd & Ho & Hc0).
+        assert (Hfa : fire_at s = omin (ppd s) (omin (ctxd s) (rd s))) by (unfold fire_at; rewrite Hp; reflexivity).
+        assert (Hlt2 : forall f, omin (ctxd s) (rd s) = Some f -> now s < f).
+        { apply (omin_lt (ppd s)). intros f Hf'. apply Hlt. rewrite Hfa. assumption. }
+        intros _. unfold inv, eff_limit, fire_at, lazy_ok. cbn [closed entered now ph rd ctxd ppd nxt].
+        destruct Hn as [Hn|Hn]; rewrite Hn in *; cbn [limit].
+        -- repeat split; try assumption; try discriminate.
+        -- rewrite (Hc0 eq_refl) in *. cbn [omin] in *. repeat split; try assumption; try discriminate.
     + apply inv_read_request. assumption.
     + apply inv_head_done. assumption.
     + apply inv_head_done. assumption.
@@ -232,12 +270,15 @@ Proof.
 Qed.
 
 (* ---- one stalled step ---- *)
+Lemma eff_limit_eq s s' : ph s' = ph s -> nxt s' = nxt s -> eff_limit c s' = eff_limit c s.
+Proof. intros H1 H2. unfold eff_limit. rewrite H1, H2. reflexivity. Qed.
+
 Lemma stall_step s e :
   inv s -> closed s = None -> stall (ph s) e = true ->
   let s' := step c s e in
-  ph s' = ph s /\ entered s' = entered s /\ now s <= now s' /\
+  ph s' = ph s /\ nxt s' = nxt s /\ entered s' = entered s /\ now s <= now s' /\
   (closed s' = None \/
-   exists L, limit c (ph s) = Some L /\ closed s' = Some (entered s + L) /\ entered s + L <= now s').
+   exists L, eff_limit c s = Some L /\ closed s' = Some (entered s + L) /\ entered s + L <= now s').
 Proof.
   intros Hi Hc Hs. destruct (Hi Hc) as (He & Hf & Hlt & _).
   destruct e as [d| | | | |]; cbn [stall] in Hs; try discriminate.
@@ -247,7 +288,7 @@ Proof.
       destruct (fire_at s) as [f|] eqn:Ef.
       * destruct (f <=? now s + d) eqn:Efd.
         -- apply Z.leb_le in Efd. cbn. repeat split; try lia. right.
-           destruct (limit c (ph s)) as [L|]; cbn in Hf; [|discriminate].
+           destruct (eff_limit c s) as [L|]; cbn in Hf; [|discriminate].
            inversion Hf; subst f. exists L. specialize (Hlt _ eq_refl).
            repeat split; try lia. f_equal. lia.
         -- cbn. repeat split; try lia. left; assumption.
@@ -260,21 +301,26 @@ Qed.
 Lemma stall_run evs : forall s,
   inv s -> closed s = None -> forallb (stall (ph s)) evs = true ->
   let s' := run c s evs in
-  ph s' = ph s /\ entered s' = entered s /\ now s <= now s' /\
+  ph s' = ph s /\ nxt s' = nxt s /\ entered s' = entered s /\ now s <= now s' /\
   (closed s' = None \/
-   exists L, limit c (ph s) = Some L /\ closed s' = Some (entered s + L) /\ entered s + L <= now s').
+   exists L, eff_limit c s = Some L /\ closed s' = Some (entered s + L) /\ entered s + L <= now s').
 Proof.
   induction evs as [|e r IH]; intros s Hi Hc Hs; [cbn [run fold_left]|rewrite run_cons].
   - repeat split; try lia. left; assumption.
   - cbn [forallb] in Hs. apply andb_true_iff in Hs as [Hs1 Hs2].
-    destruct (stall_step s e Hi Hc Hs1) as (Hp & He & Hn & Hcl).
+    destruct (stall_step s e Hi Hc Hs1) as (Hp & Hx & He & Hn & Hcl).
     destruct Hcl as [Hcl | (L & HL & Hcl & Hle)].
     + rewrite <- Hp in Hs2.
-      destruct (IH (step c s e) (inv_step s e Hi) Hcl Hs2) as (G1 & G2 & G3 & G4).
+      destruct (IH (step c s e) (inv_step s e Hi) Hcl Hs2) as (G1 & Gx & G2 & G3 & G4).
       repeat split; try congruence; try lia.
       destruct G4 as [G4 | (L & HL & G4 & G5)]; [left; assumption|right].
-      exists L. rewrite <- Hp, <- He. repeat split; assumption.
+      exists L. rewrite <- (eff_limit_eq s (step c s e) Hp Hx), <- He. repeat split; assumption.
     + destruct (run_closed r _ _ Hcl) as (G1 & G2 & G3 & G4).
+      assert (Gx : nxt (run c (step c s e) r) = nxt (step c s e)).
+      { clear -Hcl. revert Hcl. generalize (step c s e). induction r as [|x r IHr]; intros s0 H0; [reflexivity|].
+        rewrite run_cons. destruct (step_closed s0 x _ H0) as (K1 & _).
+        rewrite (IHr _ K1). destruct x; cbn [step]; rewrite ?H0; try reflexivity.
+        unfold tick. destruct (d <? 0); [reflexivity|]. rewrite H0. reflexivity. }
       repeat split; try congruence; try lia.
       right. exists L. repeat split; try assumption. lia.
 Qed.
@@ -282,15 +328,15 @@ Qed.
 (* T15_closed_at_limit *)
 Lemma closed_at_limit pre evs L :
   let s := run c (conn_start c) pre in
-  closed s = None -> limit c (ph s) = Some L -> forallb (stall (ph s)) evs = true ->
+  closed s = None -> eff_limit c s = Some L -> forallb (stall (ph s)) evs = true ->
   entered s + L <= now (run c s evs) ->
   closed (run c s evs) = Some (entered s + L).
 Proof.
   intros s Hc HL Hs Hn.
-  destruct (stall_run evs s (inv_reachable pre) Hc Hs) as (Hp & He & _ & Hcl).
+  destruct (stall_run evs s (inv_reachable pre) Hc Hs) as (Hp & Hx & He & _ & Hcl).
   destruct Hcl as [Hcl | (L' & HL' & Hcl & _)].
   - exfalso. pose proof (inv_run evs s (inv_reachable pre) Hcl) as (_ & Hf & Hlt & _).
-    rewrite Hp, He, HL in Hf. cbn in Hf. specialize (Hlt _ Hf). fold s in Hn. lia.
+    rewrite (eff_limit_eq s _ Hp Hx), He, HL in Hf. cbn in Hf. specialize (Hlt _ Hf). fold s in Hn. lia.
   - congruence.
 Qed.
 
@@ -299,17 +345,17 @@ Lemma not_before pre evs t :
   let s := run c (conn_start c) pre in
   closed s = None -> forallb (stall (ph s)) evs = true ->
   closed (run c s evs) = Some t ->
-  exists L, limit c (ph s) = Some L /\ t = entered s + L.
+  exists L, eff_limit c s = Some L /\ t = entered s + L.
 Proof.
   intros s Hc Hs Ht.
-  destruct (stall_run evs s (inv_reachable pre) Hc Hs) as (_ & _ & _ & Hcl).
+  destruct (stall_run evs s (inv_reachable pre) Hc Hs) as (_ & _ & _ & _ & Hcl).
   destruct Hcl as [Hcl | (L & HL & Hcl & _)]; [fold s in Hcl; congruence|].
   exists L. split; [assumption|]. fold s in Hcl. congruence.
 Qed.
 
 Lemma no_limit_no_close pre evs :
   let s := run c (conn_start c) pre in
-  closed s = None -> limit c (ph s) = None -> forallb (stall (ph s)) evs = true ->
+  closed s = None -> eff_limit c s = None -> forallb (stall (ph s)) evs = true ->
   closed (run c s evs) = None.
 Proof.
   intros s Hc HL Hs. destruct (closed (run c s evs)) eqn:E; [|reflexivity].
@@ -323,9 +369,14 @@ Lemma upstream_never_cut pre evs :
   closed (run c s evs) = None.
 Proof.
   intros s Hc Hp Hs. apply no_limit_no_close; try assumption.
-  - fold s. rewrite Hp. reflexivity.
+  - fold s. unfold eff_limit. rewrite Hp. reflexivity.
   - fold s. rewrite Hp. assumption.
 Qed.
+
+(* when the PROXY header is awaited before the other timers are started (the shape of the current
+   source, obligation ob_pp_first_touch_is_early) the limit in force is simply that of the phase *)
+Lemma eff_limit_early s : pp_early = true -> eff_limit c s = limit c (ph s).
+Proof. intros H. unfold eff_limit. rewrite H. destruct (ph s); reflexivity. Qed.
 
 End OneConnection.
 
